@@ -23,6 +23,7 @@ import DDProps.C03
 import DDProps.C04
 import DDProps.C05
 import DDProps.C05Auto
+import DDProps.C05Grammar
 import DDProps.C05Lex
 import DDProps.C06
 import DDProps.C06Rooted
